@@ -47,6 +47,10 @@ pub fn run(env: &Env, run: &Run) -> (Stats, Coverage) {
     // ASCII strings (two fillers), alphabet symbols alone and in pairs inside 16..41-byte ASCII strings,
     // all of them at every address residue modulo 8 / 16 (sub-slices of a larger buffer)
     st.merge(run_structural(&sigma, run.tier, |s, st| visit(env, s, st)));
+    if run.tier == Tier::Thorough && !lite() {
+        // a label of more than 4 GiB with the mapped characters behind offset 2^32
+        check_rule_giga(Prof::Ucp, RuleFn::Width, "\u{ff21}\u{65e5}\u{ff76}\u{3000}z", |x| ref_width(&env.ud16, x), &mut st);
+    }
     st.merge(cpsweep_sequential(|c, st| {
         visit(env, &from_cps(&[c as u32]), st);
         visit(env, &from_cps(&[0x65E5, c as u32]), st);
@@ -67,6 +71,9 @@ pub fn run(env: &Env, run: &Run) -> (Stats, Coverage) {
 
 pub fn replay(env: &Env, case: &Case) -> Vec<Violation> {
     let mut st = Stats::default();
+    if case.op == "giga" {
+        check_rule_giga(Prof::Ucp, RuleFn::Width, &case.str_at(0), |x| ref_width(&env.ud16, x), &mut st);
+    }
     if case.op == "rulefn" {
         let s = case.str_at(0);
         let exp = ref_width(&env.ud16, &s);
